@@ -133,6 +133,48 @@ def check_merge_cases(chk, cases, profiles, full):
         chk.sample({'kind': 'mergesort-case', 'case': cases[len(cases) // 2]})
 
 
+def run_mergex_case(case, prof, reverse, perm):
+    """mergesort over tables with different headers (union header); perm: table 2 lists its fields as (c, a, b)."""
+    import petl as etl
+    t1 = [['a', 'b']] + [prof.row(r) for r in case['t1']]
+    if case['shape'] == 'ac':
+        h23 = ['c', 'a'] if perm else ['a', 'c']
+        cells = (lambda r: [prof.conc(r[2]), prof.conc(r[0])]) if perm else (lambda r: [prof.conc(r[0]), prof.conc(r[2])])
+    else:
+        h23 = ['c', 'a', 'b'] if perm else ['a', 'b', 'c']
+        cells = (lambda r: [prof.conc(r[2]), prof.conc(r[0]), prof.conc(r[1])]) if perm else (lambda r: prof.row(r))
+    t2 = [list(h23)] + [cells(r) for r in case['t2']]
+    t3 = [['a', 'c'] if case['shape'] == 'ac' else ['a', 'b', 'c']] + [([prof.conc(r[0]), prof.conc(r[2])] if case['shape'] == 'ac' else prof.row(r)) for r in case['t3']]
+    order = case['desc'] if reverse else case['asc']
+    want = [('a', 'b', 'c')] + [tuple(prof.row(case['rows'][i - 1])) for i in order]
+    key = None if case['key'] == 'none' else 'a'
+    try:
+        got = [tuple(r) for r in etl.mergesort(t1, t2, t3, key=key, reverse=reverse)]
+        ref = [tuple(r) for r in etl.sort(etl.cat(t1, t2, t3), key, reverse=reverse)]
+    except Exception as e:
+        return 'raised %r' % (e,)
+    if ref != want:
+        return 'sort(cat(..)) delivered %r, spec %r' % (ref, want)
+    if got != want:
+        return 'mergesort delivered %r, sort(cat(..)) and spec %r' % (got, want)
+    return None
+
+
+def check_mergex_cases(chk, cases, profiles):
+    for ci, case in enumerate(cases):
+        prof = PROFILES[profiles[ci % len(profiles)]]
+        for reverse in (False, True):
+            for perm in (False, True):
+                msg = run_mergex_case(case, prof, reverse, perm)
+                chk.count(('mergesortx', ci, reverse, perm))
+                chk.replayed += 1
+                if msg:
+                    chk.violation({'op': 'mergesort', 'key': case['key'], 'headers': 'permuted' if perm else 'different'},
+                                  'mergesort(key=%r, reverse=%s) over headers (a,b) / (a,b,c) / %s tables=%r %r %r: %s'
+                                  % (case['key'], reverse, '(c,a,b)' if perm else '(a,b,c)', case['t1'], case['t2'], case['t3'], msg),
+                                  {'kind': 'mergesortx', 'case': case, 'profile': prof.name, 'reverse': reverse, 'perm': perm})
+
+
 # ---- V: recorded executions --------------------------------------------------------------------
 
 def record_traces(n_examples, seed):
@@ -238,10 +280,11 @@ def run(tier, seed):
     rm = tlc.require_ok(tlc.run('ShortlistMerge', cfg=cfgm, timeout=1800), 'ShortlistMerge')
     tlc.check_coverage(rm, ['Populate', 'Step'], 'ShortlistMerge')
     chk.add_tlc(rm, 'ShortlistMerge', cfgm, ['Populate', 'Step'])
-    cases, mcases = common.gen('SortGen', 'SortGen' if full else 'SortGenq', outs=('OUT', 'OUT2'))
+    cases, mcases, mxcases = common.gen('SortGen', 'SortGen' if full else 'SortGenq', outs=('OUT', 'OUT2', 'OUT3'))
     profiles = ['ints', 'mixed', 'text', 'compound', 'equalreps'] if full else ['ints', 'mixed', 'compound']
     check_sort_cases(chk, cases, profiles, full)
     check_merge_cases(chk, mcases, profiles, full)
+    check_mergex_cases(chk, mxcases, profiles)
     traces, concrete = record_traces(3000 if full else 300, seed)
     validate_traces(chk, traces, concrete, seed)
     from harness import algebra
@@ -261,6 +304,8 @@ def replay(path):
     with common.private_tmp() as tmp:
         if rp['kind'] == 'sort':
             msg = run_sort_case(rp['case'], PROFILES[rp['profile']], rp['B'], rp['reverse'], rp['cache'], tmp, rp['occ'])
+        elif rp['kind'] == 'mergesortx':
+            msg = run_mergex_case(rp['case'], PROFILES[rp['profile']], rp['reverse'], rp['perm'])
         elif rp['kind'] == 'mergesort':
             msg = run_merge_case(rp['case'], PROFILES[rp['profile']], rp['B'], rp['reverse'], rp['presorted'], tmp)
         else:
